@@ -323,6 +323,21 @@ def described_at_solve_time(ctx, games, clause, fields=None):
             if ref["outcome"] != "ok":
                 continue
             want = pick(ref["res"])
+            # the pruning mode, like the rest of the description, is what the object holds when solve() is called;
+            # it is used by truth value (1 / 0 from a CLI or JSON caller)
+            dd = copy.deepcopy(d)
+            ctx.case({"edit": "pruning flag assigned after construction", "game": gen.desc(g), "prune": prune}, True)
+            try:
+                with quiet():
+                    sg = tad.StochasticGame(**dd, prune_states=not prune)
+                    sg.prune_states = 1 if prune else 0
+                    got = pick([list(x) if isinstance(x, (list, tuple)) else x for x in sg.solve()])
+            except Exception as e:  # noqa
+                got = [type(e).__name__ + ": " + str(e)[:100]]
+            if got != want:
+                ctx.violation(clause, {"game": gen.desc(g), "prune": prune, "edit": "prune_states assigned after construction: " + repr(1 if prune else 0)},
+                              {"fresh_object": [x[:200] for x in want], "edited_object": [x[:200] for x in got]})
+                return
             for how in ("list edited in place after construction", "attribute assigned after construction"):
                 dd = copy.deepcopy(d)
                 # a different, valid first guess of the final states
@@ -375,11 +390,46 @@ def odd_label_invariance(ctx, games, clause, rng, fields=None):
                 return
 
 
+def shared_rows_invariance(ctx, games, clause, rng, fields=None):
+    """A description may use ONE list object as the transition row of several states (`row = [...]` placed at two
+    indices, `[row] * 2`): that is the same game as the description with equal but separate rows, and the result
+    must be the same — whatever the solver does with its own working copies."""
+    import copy
+    import impl
+    for g in games:
+        d = gen.desc(g)
+        players, tl, finals = d["players"], d["transition_list"], set(d["final_states"])
+        cands = [i for i, p in enumerate(players) if p != PR and len(tl[i]) >= 2]
+        others = [i for i, p in enumerate(players) if p != PR and i not in finals]
+        if not cands or len(others) < 2:
+            continue
+        s_ = rng.choice(cands)
+        t_ = rng.choice([i for i in others if i != s_])
+        players[t_] = P2 if players[s_] == P1 else P1
+        sep = copy.deepcopy(d)
+        sep["transition_list"][t_] = list(sep["transition_list"][s_])           # equal, separate objects
+        sha = copy.deepcopy(d)
+        sha["transition_list"][t_] = sha["transition_list"][s_]                 # one object, two states
+        for prune in (True, False):
+            a = impl.solve(sep, prune, limit=5.0, want_nodes=False)
+            b = impl.solve(sha, prune, limit=5.0, want_nodes=False)
+            if "Timeout" in (a["outcome"], b["outcome"]):
+                continue
+            ctx.case({"shared_row": [s_, t_], "game": sep, "prune": prune}, True)
+            pa = [a["outcome"]] if a["outcome"] != "ok" else [repr(a["res"][k]) for k in (fields if fields is not None else range(len(a["res"])))]
+            pb = [b["outcome"]] if b["outcome"] != "ok" else [repr(b["res"][k]) for k in (fields if fields is not None else range(len(b["res"])))]
+            if pa != pb:
+                ctx.violation(clause, {"game": sep, "prune": prune, "shared_row": [s_, t_]},
+                              {"separate_rows": [x[:200] for x in pa], "one_row_object_for_both_states": [x[:200] for x in pb]})
+                return
+
+
 def round5_passes(ctx, rng, games, prefix, fields=None):
     """the history / environment / naming passes every solver property gets (DESIGN.md 12.6)"""
     environment_independence(ctx, list(games) + [gen.all_dead_game(rng)], prefix + "-independent-of-process-environment", fields)
     described_at_solve_time(ctx, games, prefix + "-of-the-description-at-solve-time", fields)
     odd_label_invariance(ctx, games, prefix + "-unchanged-by-odd-action-names", rng, fields)
+    shared_rows_invariance(ctx, list(games) + [gen.stopping_game(rng) for _ in range(12)], prefix + "-unchanged-by-row-sharing", rng, fields)
 
 
 def replay_round5(ctx, viol, fields=None):
@@ -394,6 +444,17 @@ def replay_round5(ctx, viol, fields=None):
         return True
     if c.endswith("-of-the-description-at-solve-time"):
         described_at_solve_time(ctx, [g], c, fields)
+        return True
+    if c.endswith("-unchanged-by-row-sharing"):
+        import copy
+        import impl
+        s_, t_ = viol["input"]["shared_row"]
+        prune = viol["input"].get("prune", True)
+        sha = copy.deepcopy(g)
+        sha["transition_list"][t_] = sha["transition_list"][s_]
+        a, b = impl.solve(g, prune, want_nodes=False), impl.solve(sha, prune, want_nodes=False)
+        if a["outcome"] != b["outcome"] or repr(a.get("res")) != repr(b.get("res")):
+            ctx.violation(c, viol["input"], {"separate_rows": a["outcome"], "one_row_object_for_both_states": b["outcome"]})
         return True
     if c.endswith("-unchanged-by-odd-action-names"):
         # the recorded game is the renamed one: it must at least be solved like its un-renamed twin
